@@ -795,7 +795,11 @@ Fixpoint bread (fuel : nat) (t : ty) (x : btlv) {struct fuel} : option value :=
           let ms := root ++ flat_additions ext in
           if isset then
             match read_set f (bread f) (length root) false ms children with
-            | Some (fields, used) => if (used =? length children)%nat then Some (VSeq fields) else None
+            | Some (fields, used) =>
+              (* no component has two encodings (read_set), every encoding is a component's *)
+              if (used =? length children)%nat &&
+                 forallb (fun x => existsb (fun m => has_tag f (m_ty m) x) ms) children
+              then Some (VSeq fields) else None
             | None => None
             end
           else option_map VSeq (read_sequence f (bread f) (length root) false ms children)
